@@ -334,6 +334,37 @@ theorem termsOf_append (p q : MVPoly F) : termsOf (p ++ q) = termsOf p ++ termsO
 
 /-! ### the term order on well-formed terms -/
 
+theorem Term.cmpPairs_eq {a b : Term} (ha : Term.wf a = true) (hb : Term.wf b = true)
+    (hd : Term.degree a = Term.degree b) (h : Term.cmpPairs a b = .eq) : a = b := by
+  induction a generalizing b with
+  | nil =>
+    cases b with
+    | nil => rfl
+    | cons o t2 =>
+      have := Term.wf_head_pos hb
+      simp only [Term.degree] at hd; omega
+  | cons c t1 ih =>
+    cases b with
+    | nil =>
+      have := Term.wf_head_pos ha
+      simp only [Term.degree] at hd; omega
+    | cons o t2 =>
+      simp only [Term.cmpPairs] at h
+      split at h
+      · rename_i hv
+        split at h
+        · rename_i hp
+          rw [Nat.compare_eq_eq] at h; exact absurd h hp
+        · rename_i hp
+          have hp : c.2 = o.2 := by simpa using hp
+          simp only [Term.degree] at hd
+          have := ih (Term.wf_tail ha) (Term.wf_tail hb) (by omega) h
+          have hco : c = o := Prod.ext hv.symm hp
+          rw [this, hco]
+      · rename_i hv
+        rw [Nat.compare_eq_eq] at h; exact absurd h hv
+
+/-- On `SparseTerm::new` results, `cmp` is `Equal` only for identical terms. -/
 theorem Term.cmp_eq {a b : Term} (ha : Term.wf a = true) (hb : Term.wf b = true)
     (h : Term.cmp a b = .eq) : a = b := by
   unfold Term.cmp at h
@@ -341,35 +372,7 @@ theorem Term.cmp_eq {a b : Term} (ha : Term.wf a = true) (hb : Term.wf b = true)
   · rename_i hd
     rw [Nat.compare_eq_eq] at h; exact absurd h hd
   · rename_i hd
-    have hd : Term.degree a = Term.degree b := by simpa using hd
-    induction a generalizing b with
-    | nil =>
-      cases b with
-      | nil => rfl
-      | cons o t2 =>
-        have := Term.wf_head_pos hb
-        simp only [Term.degree] at hd; omega
-    | cons c t1 ih =>
-      cases b with
-      | nil =>
-        have := Term.wf_head_pos ha
-        simp only [Term.degree] at hd; omega
-      | cons o t2 =>
-        simp only [Term.cmpPairs] at h
-        split at h
-        · rename_i hv
-          split at h
-          · rename_i hp
-            rw [Nat.compare_eq_eq] at h; exact absurd h hp
-          · rename_i hp
-            have hp : c.2 = o.2 := by simpa using hp
-            simp only [Term.degree] at hd
-            have := ih (Term.wf_tail ha) (Term.wf_tail hb) h (by omega)
-            subst this
-            have : c = o := Prod.ext hv.symm hp
-            rw [this]
-        · rename_i hv
-          rw [Nat.compare_eq_eq] at h; exact absurd h hv
+    exact Term.cmpPairs_eq ha hb (by simpa using hd) h
 
 /-! ### addition (`impl Add for &SparsePolynomial`) -/
 
